@@ -536,6 +536,14 @@ type SpecFunc struct {
 	Opaque  bool  // body used only by functions whose contract says `reveal <name>`
 }
 
+// Owns is an ownership condition on a struct field: only the listed functions of the package may
+// mention the field (other than comparing it with nil).
+type Owns struct {
+	PkgPath, Type, Field string
+	Allowed              []string
+	Src                  string
+}
+
 type Lemma struct {
 	Name    string
 	PkgPath string
@@ -550,13 +558,14 @@ type Specs struct {
 	Contracts map[string]*Contract
 	SpecFuncs map[string]*SpecFunc // by pkgpath.name and bare name within package
 	Lemmas    map[string]*Lemma
+	Owns      map[string]*Owns // by pkgpath.Type.field
 	Files     []string
 }
 
 var labelRe = regexp.MustCompile(`^\[([A-Za-z0-9_]+)\]\s*`)
 
 func newSpecs() *Specs {
-	return &Specs{Contracts: map[string]*Contract{}, SpecFuncs: map[string]*SpecFunc{}, Lemmas: map[string]*Lemma{}}
+	return &Specs{Contracts: map[string]*Contract{}, SpecFuncs: map[string]*SpecFunc{}, Lemmas: map[string]*Lemma{}, Owns: map[string]*Owns{}}
 }
 
 // loadSpecFile parses one contract file. pkgPath is the import path the file's contracts refer to
@@ -593,7 +602,7 @@ func (sp *Specs) loadSpecFile(path, pkgPath string) error {
 		}
 		first := strings.Fields(trim)[0]
 		switch first {
-		case "func", "spec", "lemma", "axiom", "requires", "ensures", "loop", "inst", "allow_panic", "trusted", "pure", "modifies", "let", "package", "assert", "noinline", "ghost", "reveal", "inline", "glue", "nilable":
+		case "func", "spec", "lemma", "axiom", "requires", "ensures", "loop", "inst", "allow_panic", "trusted", "pure", "modifies", "let", "package", "assert", "noinline", "ghost", "reveal", "inline", "glue", "nilable", "owns":
 			clauses = append(clauses, rawClause{trim, i + 1})
 		default:
 			if len(clauses) == 0 {
@@ -828,6 +837,20 @@ func (sp *Specs) loadSpecFile(path, pkgPath string) error {
 				sf.Ret = after
 			}
 			sp.SpecFuncs[pkgPath+"."+sf.Name] = sf
+		case "owns":
+			cur = nil
+			k := strings.Index(rest, ":")
+			tf := strings.Split(strings.TrimSpace(rest[:max(k, 0)]), ".")
+			if k < 0 || len(tf) != 2 {
+				return fmt.Errorf("%s:%d: bad owns clause (owns Type.field: f, g)", path, rc.line)
+			}
+			ow := &Owns{PkgPath: pkgPath, Type: tf[0], Field: tf[1], Src: rest}
+			for _, a := range strings.Split(rest[k+1:], ",") {
+				if a = strings.TrimSpace(a); a != "" {
+					ow.Allowed = append(ow.Allowed, a)
+				}
+			}
+			sp.Owns[pkgPath+"."+tf[0]+"."+tf[1]] = ow
 		case "lemma", "axiom":
 			cur = nil
 			k := strings.Index(rest, ":")
